@@ -102,3 +102,46 @@ def random_plan(rng, job, variant, n, console=True, bias_resolve=True):
             if rng.random() < 0.5:
                 lines.append("KEYDOWNSTOP " + nm)
     return lines[:n]
+
+
+DEBUGS = ['!debug "viewer(\'clock\')"', '!debug "[v.name for v in viewer(\'validity\') if available(v)][:3]"',
+          '!debug "viewer(\'buff\').short_dict()"']
+
+
+@functools.lru_cache(maxsize=None)
+def delay_skill_names(job: str, variant: int = 0):
+    """Skills whose use announces a positive delay (so that a pending delay exists after USE)."""
+    e = make_engine(job, variant)
+    out = []
+    for info in e.get_current_viewer()("info"):
+        try:
+            if float(info.get("delay", 0) or 0) > 0 and info.get("name") in skill_names(job, variant):
+                out.append(info["name"])
+        except Exception:
+            pass
+    return tuple(out) or skill_names(job, variant)
+
+
+def boundary_plans(rng, job, variant, n):
+    """Short plans built around the corners of the engine's bookkeeping: an action whose events are still pending
+    (USE/CAST of a skill with a delay, a key-down in flight), then entries that play nothing (console), zero elapses or
+    another skill's action, then the command that reads the pending events (RESOLVE / KEYDOWNSTOP of the first skill).
+    Checks cut / roll back / edit at every position of these."""
+    names = list(delay_skill_names(job, variant))
+    kd = list(keydown_names(job, variant))
+    out = []
+    # the two canonical corners first: a pending delay, one console entry, the RESOLVE that reads it
+    x0 = rng.choice(names)
+    out.append(['USE "%s"' % x0, rng.choice(DEBUGS), 'RESOLVE "%s"' % x0, "ELAPSE 1000"])
+    if n > 1:
+        out.append(['CAST "%s"' % x0, rng.choice(DEBUGS), rng.choice(DEBUGS), 'RESOLVE "%s"' % x0, "ELAPSE 1000"])
+    for _ in range(max(0, n - 2)):
+        x = rng.choice(kd) if kd and rng.random() < 0.3 else rng.choice(names)
+        y = rng.choice(names)
+        dbg = rng.choice(DEBUGS)
+        first = rng.choice(['USE "%s"' % x, 'CAST "%s"' % x])
+        mid = rng.choice([[dbg], [dbg, rng.choice(DEBUGS)], [dbg, "ELAPSE 0"], ["ELAPSE 0", dbg], [dbg, 'USE "%s"' % y, dbg], []])
+        tail = rng.choice([['RESOLVE "%s"' % x], ['RESOLVE "%s"' % x, 'RESOLVE "%s"' % x], ['KEYDOWNSTOP "%s"' % x, 'RESOLVE "%s"' % x],
+                           ['RESOLVE "%s"' % y, 'RESOLVE "%s"' % x]])
+        out.append((["ELAPSE 30"] if rng.random() < 0.4 else []) + [first] + mid + tail + ["ELAPSE 1000"])
+    return out[:n]
